@@ -24,8 +24,93 @@ TRUSTED_BASE = [
 ]
 
 
+class SourceCoverage:
+    """Which lines of the library does this run of the correspondence actually execute?  The tie between model and code is differential
+    testing: it sees only the code its cases reach.  Every check therefore measures, with `sys.monitoring` LINE events (each location
+    reports once and is then switched off, so the cost is negligible), the executed lines of `pymemcache/**.py` (tests excluded) and writes
+    per-file counts and the unexecuted line ranges into its evidence (`coverage.library_lines_executed`).  Purely a measurement: it never
+    affects a verdict, and any failure to set it up is recorded and ignored."""
+
+    def __init__(self):
+        self.hit = set()
+        self.on = False
+        self.note = None
+        self._real = {}
+
+    def start(self):
+        if self.on or os.environ.get("VERIF_NO_LINECOV"):
+            return
+        try:
+            mon = sys.monitoring
+            mon.use_tool_id(mon.COVERAGE_ID, "verif-tie-coverage")
+            root = os.path.join(os.path.realpath(REPO), "pymemcache") + os.sep
+
+            def on_line(code, lineno, _hit=self.hit, _real=self._real, _root=root, _dis=mon.DISABLE):
+                fn = code.co_filename
+                r = _real.get(fn)
+                if r is None:
+                    r = _real[fn] = os.path.realpath(fn) if fn and fn[0] != "<" else fn
+                if r.startswith(_root):
+                    _hit.add((r, lineno))
+                return _dis
+            mon.register_callback(mon.COVERAGE_ID, mon.events.LINE, on_line)
+            mon.set_events(mon.COVERAGE_ID, mon.events.LINE)
+            self.on = True
+        except Exception as e:      # e.g. the tool id is taken: no measurement, no effect on the check
+            self.note = "not measured: " + repr(e)[:120]
+
+    @staticmethod
+    def _executable_lines(path):
+        lines = set()
+        try:
+            top = compile(open(path, encoding="utf-8").read(), path, "exec")
+        except Exception:
+            return lines
+        todo = [top]
+        while todo:
+            c = todo.pop()
+            for _, _, ln in c.co_lines():
+                if ln is not None and ln > 0:
+                    lines.add(ln)
+            todo += [k for k in c.co_consts if hasattr(k, "co_lines")]
+        return lines
+
+    def report(self):
+        if not self.on:
+            return {"note": self.note or "not measured"}
+        root = os.path.join(os.path.realpath(REPO), "pymemcache")
+        out = {}
+        for d, _, files in os.walk(root):
+            if os.sep + "test" in d[len(root):]:
+                continue
+            for fn in sorted(files):
+                if not fn.endswith(".py"):
+                    continue
+                p = os.path.join(d, fn)
+                ex = self._executable_lines(p)
+                if not ex:
+                    continue
+                hit = {ln for (f, ln) in self.hit if f == p} & ex
+                if not hit:
+                    continue            # a module this check never imports
+                miss = sorted(ex - hit)
+                ranges, i = [], 0
+                while i < len(miss):
+                    j = i
+                    while j + 1 < len(miss) and miss[j + 1] - miss[j] <= 2:
+                        j += 1
+                    ranges.append(str(miss[i]) if i == j else f"{miss[i]}-{miss[j]}")
+                    i = j + 1
+                out[os.path.relpath(p, os.path.realpath(REPO))] = {"executable": len(ex), "executed": len(hit), "not_executed": ranges[:60]}
+        return out
+
+
+LINECOV = SourceCoverage()
+
+
 def import_repo():
     """make `import pymemcache` resolve to the working tree under test"""
+    LINECOV.start()
     if sys.path[0] != REPO:
         sys.path.insert(0, REPO)
     for m in list(sys.modules):
@@ -436,6 +521,10 @@ class Ctx:
             "correspondence_disagreements": len(self.disagreements),
             "known_findings_hit": {k: v["n"] for k, v in self.known_hits.items()},
         }
+        try:
+            cov["library_lines_executed"] = LINECOV.report()
+        except Exception as e:
+            cov["library_lines_executed"] = {"note": "report failed: " + repr(e)[:120]}
         cov.update(self.extra)
         ev = {
             "property_id": self.pid,
